@@ -55,8 +55,8 @@ PROPS = {
                 "one trial = a burst of N in {2,4,5,6,8,16,40} keep-alive connections (barrier / staggered / two waves) against a worker pool in a seeded pre-state; every connection must be answered while all stay open, a stalled one is confirmed by closing another connection. distinct = (pre-state, N, pattern, task-queued?); every trial non-trivial",
                 15000, 300000, miri=miri(["pool_burst", "pool_retire_race"], 8, 96, per=2), sanitizers=["thread"]),
     "C09": plan("exploration",
-                "one case = body-bearing request (CL buffered / CL streamed / chunked; hostile body bytes spelling requests) consumed to a seeded prefix and finished by respond/drop/raw writer, followed by 1..3 requests; the delivered sequence must equal the sent sequence. distinct = (framing, length, consumption class, finish); non-trivial = body not read to EOF",
-                10000, 240000),
+                "one case = body-bearing request (CL buffered / CL streamed / chunked; hostile body bytes spelling requests) consumed to a seeded prefix and finished by respond/drop/raw writer, followed by 1..3 requests; the delivered sequence must equal the sent sequence. distinct = (framing, length, consumption class, finish); non-trivial = body not read to EOF; Miri: the request object alone (framing scenario: body consumed fully / half / not at all, then dropped; the source must be positioned at the first byte after the body)",
+                10000, 240000, miri=miri(["framing"], 8, 64)),
     "C10": plan("exploration",
                 "one case = pipeline of 1..4 with one malformed/unsupported request (request-line fields, version token, header without colon, non-ASCII byte, Expect value) at a seeded position, earlier requests answered at once or held 50 ms; delivery set, status sequence and termination compared with the statement, stalls confirmed by a control connection. distinct = (class incl. token, position, length, hold)",
                 10000, 240000),
